@@ -33,6 +33,9 @@
 #include <primesieve/Wheel.hpp>
 #include <primesieve/PreSieve.hpp>
 #include <sys/wait.h>
+#include <csignal>
+#include <unistd.h>
+#include <sanitizer/common_interface_defs.h>
 
 #include <cerrno>
 #include <cstdint>
@@ -60,6 +63,7 @@ struct primesieve_verif_probe
   static uint64_t segLow(const primesieve::PrimeGenerator& pg) { return pg.segmentLow_; }
   static uint64_t segHigh(const primesieve::PrimeGenerator& pg) { return pg.segmentHigh_; }
   static const primesieve::Vector<uint8_t>& sieve(const primesieve::PrimeGenerator& pg) { return pg.sieve_; }
+  static uint64_t pendingPrime(const primesieve::PrimeGenerator& pg) { return pg.prime_; }
   static uint64_t maxSmall(const primesieve::PrimeGenerator& pg) { return pg.maxEratSmall_; }
   static uint64_t maxMedium(const primesieve::PrimeGenerator& pg) { return pg.maxEratMedium_; }
   static void setSieveIdxDone(primesieve::PrimeGenerator& pg) { pg.sieveIdx_ = pg.sieve_.size(); }
@@ -180,6 +184,12 @@ int streamIter(std::istream& in)
       it->jump_to(u64(t[1]), u64(t[2]));
       std::cout << "jump " << t[1] << " " << t[2] << " => " << iterState(*it) << "\n";
     }
+    else if (t[0] == "ss")
+    {
+      // sieve size for the generators created from now on (stays in effect for the scripts that follow)
+      primesieve::set_sieve_size(atoi(t[1].c_str()));
+      std::cout << "ss " << t[1] << " => " << iterState(*it) << "\n";
+    }
     else if (t[0] == "clear")
     {
       it->clear();
@@ -266,6 +276,7 @@ int streamSegment(std::istream& in)
       std::string bad;
       std::ostringstream geo;
       uint64_t prevHigh = 0;
+      uint64_t feedSum = 0;  // feed loop of PrimeGenerator::sieveSegment(): prime_ after every segment
       while (true)
       {
         try
@@ -281,6 +292,7 @@ int streamSegment(std::istream& in)
             break;
           throw;
         }
+        feedSum += primesieve_verif_probe::pendingPrime(pg);
         // the segment just sieved starts at low_; its bytes are sieve_
         uint64_t low = primesieve_verif_probe::low(pg);
         auto& sv = primesieve_verif_probe::sieve(pg);
@@ -321,6 +333,7 @@ int streamSegment(std::istream& in)
       }
       std::cout << "segs=" << nseg << " total=" << total << " sum=" << sum
                 << " small=" << primesieve_verif_probe::maxSmall(pg) << " medium=" << primesieve_verif_probe::maxMedium(pg)
+                << " feed=" << (stop <= 1000000000000ull ? std::to_string(feedSum) + ":" + std::to_string(primesieve_verif_probe::pendingPrime(pg)) : std::string("-"))
                 << " content=" << (bad.empty() ? "ok" : bad) << geo.str() << "\n";
     }
     catch (const std::exception& e)
@@ -1671,8 +1684,15 @@ int streamSysfs(std::istream& in)
 
 } // namespace
 
+// the trace must reach the operation that dies: flush what is buffered when a sanitizer
+// reports (death callback) or when an assertion / std::terminate raises SIGABRT
+static void flushTrace() { std::cout.flush(); fflush(stdout); }
+static void onAbort(int) { flushTrace(); _exit(134); }
+
 int main(int argc, char** argv)
 {
+  __sanitizer_set_death_callback(flushTrace);
+  std::signal(SIGABRT, onAbort);
   if (argc < 3)
   {
     std::cerr << "usage: psv_harness <stream> <opsfile>\n";
